@@ -5,9 +5,166 @@ namespace Canopy.Smt
 open Trie
 
 /-- the repaired verifier has no crash and no hang outcome -/
-theorem verifyFixed_no_crash (H : Bytes → Bytes) (n : Nat) (uk v : Bytes) (m : Bool) (root : Bytes) (proof : List PNode) :
-    (∀ w, verifyFixed H n uk v m root proof ≠ .crash w) ∧ verifyFixed H n uk v m root proof ≠ .hang := by
+theorem verifyFixed_no_crash (H : Bytes → Bytes) (H4 : Bytes → Bytes → Bytes → Bytes → Bytes) (n : Nat) (uk v : Bytes) (m : Bool) (root : Bytes) (proof : List PNode) :
+    (∀ w, verifyFixed H H4 n uk v m root proof ≠ .crash w) ∧ verifyFixed H H4 n uk v m root proof ≠ .hang := by
   unfold verifyFixed
-  cases verifyFixedF H n uk v m root proof <;> simp [FVerdict.toVerdict]
+  cases verifyFixedF H H4 n uk v m root proof <;> simp [FVerdict.toVerdict]
+
+/-! ### gcp facts -/
+
+/-- a common prefix is a prefix of the greatest common prefix -/
+theorem prefix_gcp : ∀ (x a b : Key), x <+: a → x <+: b → x <+: gcp a b
+  | [], _, _, _, _ => List.nil_prefix
+  | x :: xs, [], _, h, _ => by simp at h
+  | x :: xs, _ :: _, [], _, h => by simp at h
+  | x :: xs, a :: as, b :: bs, h1, h2 => by
+    rw [List.cons_prefix_cons] at h1 h2
+    obtain ⟨rfl, h1⟩ := h1
+    obtain ⟨rfl, h2⟩ := h2
+    simp only [gcp, if_true]
+    exact List.cons_prefix_cons.mpr ⟨rfl, prefix_gcp xs as bs h1 h2⟩
+
+/-- two keys that part ways right after `q` have `q` as greatest common prefix -/
+theorem gcp_of_diverge {q a b : Key} {x : Bool} (ha : q ++ [x] <+: a) (hb : q ++ [!x] <+: b) : gcp a b = q := by
+  have hq : q <+: gcp a b := prefix_gcp q a b (prefix_of_snoc_prefix ha) (prefix_of_snoc_prefix hb)
+  obtain ⟨rest, hrest⟩ := hq
+  cases rest with
+  | nil => simpa using hrest.symm
+  | cons y rest =>
+    exfalso
+    have hy : q ++ [y] <+: gcp a b := ⟨rest, by rw [← hrest]; simp⟩
+    have e1 := prefix_bit_unique (hy.trans (gcp_prefix_left a b)) ha
+    have e2 := prefix_bit_unique (hy.trans (gcp_prefix_right a b)) hb
+    rw [e1] at e2; cases x <;> simp at e2
+
+theorem gcp_comm : ∀ a b : Key, gcp a b = gcp b a
+  | [], [] => rfl
+  | [], _ :: _ => rfl
+  | _ :: _, [] => rfl
+  | a :: as, b :: bs => by
+    simp only [gcp]
+    by_cases e : a = b
+    · subst e; simp [gcp_comm as bs]
+    · have : ¬ b = a := fun h => e h.symm
+      simp [e, this]
+
+/-- `|gcp a b| = |b|` exactly when `b` is a prefix of `a` -/
+theorem gcp_length_eq_iff (a b : Key) : (gcp a b).length = b.length ↔ b <+: a := by
+  constructor
+  · intro h
+    have := (gcp_prefix_right a b).eq_of_length h
+    rw [← this]; exact gcp_prefix_left a b
+  · intro h
+    have h1 : b <+: gcp a b := prefix_gcp b a b h (List.prefix_refl _)
+    have h2 := (gcp_prefix_right a b).length_le
+    have h3 := h1.length_le
+    omega
+
+namespace Trie
+
+/-- the children of a well-formed node part ways right after its prefix -/
+theorem gcp_children {n : Nat} {p : Key} {l r : Trie} (h : WF n (node p l r)) : gcp l.key r.key = p :=
+  gcp_of_diverge (x := false) (child_prefix h.1 h.2.2.1) (child_prefix h.2.1 h.2.2.2)
+
+theorem child_key_length_gt {n : Nat} {p : Key} {l r : Trie} (h : WF n (node p l r)) :
+    p.length < l.key.length ∧ p.length < r.key.length :=
+  ⟨length_lt_of_snoc_prefix (child_prefix h.1 h.2.2.1), length_lt_of_snoc_prefix (child_prefix h.2.1 h.2.2.2)⟩
+
+end Trie
+
+/-! ### the key codec on honest keys -/
+
+/-- meaningful bits of the final data byte as the validator computes them -/
+def lastBitsOf (v pad : UInt8) : Nat := pad.toNat + max (V.len8 v) 1
+
+theorem lastBits_1 : ∀ a : Bool, lastBitsOf (UInt8.ofNat (bitsVal [a])) (UInt8.ofNat (padOf [a])) = 1 := by decide
+theorem lastBits_2 : ∀ a b : Bool, lastBitsOf (UInt8.ofNat (bitsVal [a, b])) (UInt8.ofNat (padOf [a, b])) = 2 := by decide
+theorem lastBits_3 : ∀ a b c : Bool,
+    lastBitsOf (UInt8.ofNat (bitsVal [a, b, c])) (UInt8.ofNat (padOf [a, b, c])) = 3 := by decide
+theorem lastBits_4 : ∀ a b c d : Bool,
+    lastBitsOf (UInt8.ofNat (bitsVal [a, b, c, d])) (UInt8.ofNat (padOf [a, b, c, d])) = 4 := by decide
+theorem lastBits_5 : ∀ a b c d e : Bool,
+    lastBitsOf (UInt8.ofNat (bitsVal [a, b, c, d, e])) (UInt8.ofNat (padOf [a, b, c, d, e])) = 5 := by decide
+theorem lastBits_6 : ∀ a b c d e f : Bool,
+    lastBitsOf (UInt8.ofNat (bitsVal [a, b, c, d, e, f])) (UInt8.ofNat (padOf [a, b, c, d, e, f])) = 6 := by decide
+theorem lastBits_7 : ∀ a b c d e f g : Bool,
+    lastBitsOf (UInt8.ofNat (bitsVal [a, b, c, d, e, f, g])) (UInt8.ofNat (padOf [a, b, c, d, e, f, g])) = 7 := by decide
+theorem lastBits_8 : ∀ a b c d e f g h : Bool,
+    lastBitsOf (UInt8.ofNat (bitsVal [a, b, c, d, e, f, g, h])) (UInt8.ofNat (padOf [a, b, c, d, e, f, g, h])) = 8 := by
+  decide
+
+theorem lastBits_encode (c : List Bool) (h1 : 1 ≤ c.length) (h8 : c.length ≤ 8) :
+    lastBitsOf (UInt8.ofNat (bitsVal c)) (UInt8.ofNat (padOf c)) = c.length := by
+  match c, h1, h8 with
+  | [a], _, _ => exact lastBits_1 a
+  | [a, b], _, _ => exact lastBits_2 a b
+  | [a, b, c], _, _ => exact lastBits_3 a b c
+  | [a, b, c, d], _, _ => exact lastBits_4 a b c d
+  | [a, b, c, d, e], _, _ => exact lastBits_5 a b c d e
+  | [a, b, c, d, e, f], _, _ => exact lastBits_6 a b c d e f
+  | [a, b, c, d, e, f, g], _, _ => exact lastBits_7 a b c d e f g
+  | [a, b, c, d, e, f, g, h], _, _ => exact lastBits_8 a b c d e f g h
+  | _ :: _ :: _ :: _ :: _ :: _ :: _ :: _ :: _ :: _, _, h => simp at h
+
+/-- the quantity `(len - 2) * 8 + lastBits` the validator compares with the key length -/
+def bitsOfEnc (b : Bytes) : Option Nat :=
+  match b.reverse with
+  | pad :: last :: _ => if lastBitsOf last pad ≤ 8 then some ((b.length - 2) * 8 + lastBitsOf last pad) else none
+  | _ => none
+
+theorem validNodeKey_iff (n : Nat) (b : Bytes) : validNodeKey n b = true ↔ ∃ m, bitsOfEnc b = some m ∧ m ≤ n := by
+  unfold validNodeKey bitsOfEnc lastBitsOf
+  generalize b.reverse = rv
+  match rv with
+  | [] => simp
+  | [_] => simp
+  | pad :: last :: more =>
+    simp only [Bool.and_eq_true, decide_eq_true_eq]
+    constructor
+    · rintro ⟨h1, h2⟩; exact ⟨_, by rw [if_pos h1], h2⟩
+    · rintro ⟨m, hm, hle⟩
+      by_cases h1 : pad.toNat + max (V.len8 last) 1 ≤ 8
+      · rw [if_pos h1] at hm
+        simp at hm; subst hm; exact ⟨h1, hle⟩
+      · rw [if_neg h1] at hm; simp at hm
+
+theorem bitsOfEnc_cons (x : UInt8) (rest : Bytes) (h : 2 ≤ rest.length) :
+    bitsOfEnc (x :: rest) = (bitsOfEnc rest).map (· + 8) := by
+  unfold bitsOfEnc
+  match hr : rest.reverse with
+  | [] => simp at hr; subst hr; simp at h
+  | [_] =>
+    have := congrArg List.length hr; simp at this; omega
+  | pad :: last :: more =>
+    simp only [List.reverse_cons, hr, List.cons_append, List.length_cons]
+    split <;> simp <;> omega
+
+/-- an honest key encoding passes the validator and carries its exact bit length -/
+theorem bitsOfEnc_encodeKey : ∀ (m : Nat) (k : Key), k.length = m → k ≠ [] → bitsOfEnc (encodeKey k) = some k.length := by
+  intro m
+  induction m using Nat.strongRecOn with
+  | _ m ih =>
+    intro k hm hne
+    cases k with
+    | nil => exact absurd rfl hne
+    | cons b bs =>
+      by_cases h : bs.length < 8
+      · rw [encodeKey_short b bs h]
+        have hl := lastBits_encode (b :: bs) (by simp) (by simp; omega)
+        simp only [bitsOfEnc, List.reverse_cons, List.reverse_nil, List.nil_append, List.cons_append, hl]
+        simp; omega
+      · rw [encodeKey_long b bs h]
+        have hd : (b :: bs).drop 8 ≠ [] := by
+          intro e
+          have := congrArg List.length e
+          simp [List.length_drop] at this
+          omega
+        have hlen := encodeKey_length_ge _ _ rfl hd
+        rw [bitsOfEnc_cons _ _ hlen, ih ((b :: bs).drop 8).length (by simp [List.length_drop] at *; omega) _ rfl hd]
+        simp [List.length_drop]; omega
+
+theorem validNodeKey_encodeKey {n : Nat} {k : Key} (hne : k ≠ []) (hle : k.length ≤ n) :
+    validNodeKey n (encodeKey k) = true :=
+  (validNodeKey_iff n _).mpr ⟨k.length, bitsOfEnc_encodeKey _ k rfl hne, hle⟩
 
 end Canopy.Smt
